@@ -35,6 +35,7 @@ LEVEL = "translation_validation"
 # ---------------------------------------------------------------------------------------------
 class DB:
     def __init__(self, ctx, R, need_leaf, need_parent, with_sub, rich_only=False, lean=False):
+        self.ctx = ctx
         self.riches = []
         self.leaves = []
         self.nodes = []
@@ -91,7 +92,7 @@ class DB:
             if isinstance(n, M.SubNode):
                 t["SubNodeDAO"].append(dict(database_id=nid[id(n)], extra=n.extra))
         for i, r in enumerate(getattr(self, "riches", [])):
-            t["RichDAO"].append(dict(database_id=i + 1, number=r.number, text=r.text, owner_id=nid[id(r.owner)] if r.owner is not None else None))
+            t["RichDAO"].append(dict(database_id=i + 1, number=r.number, text=r.text, ratio=r.ratio, owner_id=nid[id(r.owner)] if r.owner is not None else None))
         return t
 
 
@@ -182,6 +183,13 @@ def eval_expr(e, env):
         raise NotModelled("unary %r" % e.operator)
     if isinstance(e, E.BinaryExpression):
         name = getattr(e.operator, "__name__", str(e.operator))
+        if name in ("between_op", "not_between_op"):
+            l = eval_expr(e.left, env)
+            bounds = [eval_expr(c, env) for c in e.right.clauses]
+            if l is NULL or any(b is NULL for b in bounds) or len(bounds) != 2:
+                return NULL
+            res = AND(l >= bounds[0], l <= bounds[1])
+            return res if name == "between_op" else NOT(res)
         l, r = eval_expr(e.left, env), eval_expr(e.right, env)
         if name in _CMP:
             if l is NULL or r is NULL:
@@ -392,6 +400,17 @@ def _s20(n, m, k, db):
 @shape("and_(r.owner == m.parent, m.tag > k0) (join and a condition on the joined variable)", root=M.Rich, need_parent=True, join_nodes=True)
 def _s21(n, m, k, db):
     return and_(n.owner == m.parent, m.tag > k[0]), lambda o, ns: True
+
+
+RATIOS = [2.0, 2.5, 0.5, 4.0]
+
+
+@shape("in_(r.ratio, [1, 2, 3]) (consecutive integer literals, a float column)", root=M.Rich)
+def _s22(n, m, k, db):
+    for i, r in enumerate(db.riches):
+        r.ratio = RATIOS[db.ctx.choice("ratio%d" % i, len(RATIOS))]
+        r.text = "x"
+    return in_(n.ratio, [1, 2, 3]), lambda o, ns: True
 
 
 @shape("not_(n.tag > k0)", expect="reject")
